@@ -64,6 +64,12 @@ func addR81a(w *World, r *Report, rule string) {
 			r.undecided(rule, key, "-", "function not found")
 			continue
 		}
+		// calls of forwarding helpers (also a helper deferred directly) are read as the calls they stand for
+		if nl := w.expandForwarding(p, fd.Body.List); len(nl) > 0 && &nl[0] != &fd.Body.List[0] {
+			cp := *fd
+			cp.Body = &ast.BlockStmt{Lbrace: fd.Body.Lbrace, List: nl, Rbrace: fd.Body.Rbrace}
+			fd = &cp
+		}
 		info := p.TypesInfo
 		c := &astCanon{info: info}
 		params := map[types.Object]bool{}
